@@ -12,14 +12,14 @@ pub fn cases(ctx: &Ctx) -> Vec<WCase> {
     let mut out = vec![];
     let mut r = Rng::new(ctx.seed ^ 0xC09);
     // false-alarm half
-    for i in 0..ctx.n(2500, 100_000) {
+    for i in 0..ctx.n(8000, 400_000) {
         let mut rr = r.fork(i as u64);
         let mut s = gen_c01_space(&mut rr, 500);
         s.desync = Some(1 + (i as u32 % 12));
         out.push(wcase(format!("noalarm-{i}"), s));
     }
     // detection half
-    let n_det = ctx.n(1500, 60_000);
+    let n_det = ctx.n(5000, 250_000);
     for i in 0..n_det {
         let mut rr = r.fork(0x2000_0000 + i as u64);
         let mut s = Scn::base(rr.next());
